@@ -50,6 +50,30 @@ def _pos(doc):
     return out
 
 
+def _leafpos(doc):
+    """-> (html, [(kind, line, column)]) for paragraphs, headings, breaks and fenced blocks, in document order"""
+    st, toks = impl.parse(doc)
+    if st != "ok":
+        return None
+    try:
+        html = impl.to_html(toks)
+    except BaseException:  # noqa
+        return None
+    out = []
+    for t in toks:
+        if t.is_paragraph:
+            out.append((0, t.line_number, t.column_number))
+        elif t.is_atx_heading:
+            out.append((1, t.line_number, t.column_number))
+        elif t.is_setext_heading:
+            out.append((2, t.original_line_number, t.original_column_number))
+        elif t.is_thematic_break:
+            out.append((3, t.line_number, t.column_number))
+        elif t.is_fenced_code_block:
+            out.append((4, t.line_number, t.column_number))
+    return html, out
+
+
 def enc(doc, toks, tabs=False):
     lines = [(l.expandtabs(4) if tabs else l) for l in doc.split("\n")]
     parts = ["POS", str(len(lines))] + [extract.enc_str(l) for l in lines]
@@ -139,14 +163,51 @@ def run(ctx):
         ctx.corr_cases += len(cases)
         for b in bad[:5]:
             ctx.broke(f"model/implementation correspondence (Model/Pos.v calc_deltas) differs on {strs[b]!r}")
+    # ---- leaf-block positions against the spec model CM (documents of the fragment F whose structure PyMarkdown gets right)
+    import cm
+    from props import c03
+    bdocs = []
+    for name, ds in c03.spaces(ctx).items():
+        bdocs += ds if ctx.tier == "thorough" or len(ds) < 3000 else gen.sample(ds, 3000, ctx.seed + 11)
+    bdocs = list(gen.uniq(bdocs))
+    cmres = cm.cm_html_many(bdocs)
+    keep = [i for i, (inf, h) in enumerate(cmres) if inf and h is not None]
+    pyres = impl.pmap(_leafpos, [bdocs[i] for i in keep], chunksize=128)
+    reqs = ["LEAFPOS " + str(len(bdocs[i].split("\n"))) + " " + " ".join(extract.enc_str(x) for x in bdocs[i].split("\n")) for i in keep]
+    try:
+        nsh = 8
+        ans = [None] * len(reqs)
+        for k, out in enumerate(impl.pmap(extract.run_lines, [reqs[k::nsh] for k in range(nsh)], procs=nsh, chunksize=1)):
+            ans[k::nsh] = out
+    except Exception as e:
+        ctx.broke(f"the extracted spec model could not be run: {e}")
+        ans = []
+    nb = 0
+    for i, pr, a in zip(keep, pyres, ans):
+        if pr is None or a.startswith("ERR"):
+            continue
+        html, mine = pr
+        if cm.norm_html(html) != cm.norm_html(cmres[i][1]):
+            continue  # the block structure differs: C03's business
+        spec_pos = [tuple(int(x) for x in t.split(",")) for t in a.split(" ", 1)[1].split(";") if t] if " " in a else []
+        ctx.count(1, "leaf-positions-vs-spec-model")
+        nb += 1
+        if len(spec_pos) > 1:
+            ctx.seen(["leafpos", bdocs[i]])
+        if mine != spec_pos:
+            diff = next(((x, y) for x, y in zip(mine + [None] * 9, spec_pos + [None] * 9) if x != y), None)
+            ctx.violation("leaf-position", {"doc": bdocs[i]}, f"leaf blocks (kind, line, column) {mine} but the spec model places them at {spec_pos} (kinds: 0 paragraph, 1 atx, 2 setext start, 3 break, 4 fence); first difference {diff}", group="leafpos-" + str((diff[0] or diff[1])[0] if diff else "x"))
+    ctx.corr_cases += nb
+    ctx.unit("leaf-positions", documents_compared=nb)
     ctx.trusted += [
+        "leaf-block positions: the spec model CM (Spec/CMBlock.v records the container offset and indentation of every leaf; Spec/RuleSpec.v leaf_positions), compared only where the rendered structure agrees",
         "the position abstraction harness/posabs.py (expected opening text per token kind; an HTML block may be indented: its token points at the start of the raw line)",
         "extraction + driver.ml; the Python mirror of pos_ok is compared with the extracted oracle on every token",
         "columns: a token in a document with tabs is accepted if it is right either as a code-point index or in the 4-column tab-stop reading (counted in units.tokens.needed_tab_stop_reading)",
     ]
     return ctx.finish(
         level="proof",
-        rule="every positioned token of the C04 document spaces (without the long delimiter-run space) + multi-line inline elements (links/images with wrapped destinations incl. non-ASCII and escaped, multi-line code spans, raw HTML, emphasis, hard breaks; in paragraphs, quotes, lists) + delimiter runs to 5 symbols; quick = seed-selected subsets; non-trivial = a document with more than 3 positioned tokens; distinct by document",
+        rule="leaf-block positions against the spec model on the C03 document spaces; every positioned token of the C04 document spaces (without the long delimiter-run space) + multi-line inline elements (links/images with wrapped destinations incl. non-ASCII and escaped, multi-line code spans, raw HTML, emphasis, hard breaks; in paragraphs, quotes, lists) + delimiter runs to 5 symbols; quick = seed-selected subsets; non-trivial = a document with more than 3 positioned tokens; distinct by document",
         assumptions=["documents that do not parse are C01's business", "that every token of every document satisfies the oracle is established by enumeration, not proved"],
         extra_cov={"exhaustive": ctx.tier == "thorough"},
     )
